@@ -86,9 +86,19 @@ MAX_STATES = 220      # bound on the number of FSG states the expansion of any r
 MAX_CLOSED_ARCS = 3000  # the closed FSG is compared when it has at most this many arcs (null closure is quadratic)
 
 
+def first_defs(g):
+    """(name, public, body) of the first definition of every rule name"""
+    seen, out = set(), []
+    for nm, pub, body in g["rules"]:
+        if nm not in seen:
+            seen.add(nm)
+            out.append((nm, pub, body))
+    return out
+
+
 def expansion_size(g):
     """upper estimate of the states `expand_rule` creates for the most expensive top rule"""
-    rules = {nm: body for nm, _, body in g["rules"]}
+    rules = {nm: body for nm, _, body in first_defs(g)}
     memo = {}
 
     def rule(nm, path):
@@ -155,7 +165,10 @@ class Gen:
 
     def seq(self, ctx, depth, last, weighted):
         n = self.rng.weighted([(1, 40), (2, 35), (3, 20), (4, 5)] if not ctx.get("narrow") else [(1, 60), (2, 35), (3, 5)])
-        return [self.item(ctx, depth, last and i == n - 1, weighted and i == 0) for i in range(n)]
+        # JSGF puts weights on alternatives (first item); the parser takes them in front of any item
+        return [self.item(ctx, depth, last and i == n - 1,
+                          (weighted and i == 0) or (i > 0 and ctx.get("anyweights") and self.rng.chance(0.3)))
+                for i in range(n)]
 
     def alts(self, ctx, depth, last):
         r = self.rng
@@ -189,6 +202,9 @@ class Gen:
         words = words[:r.range(2, 4)]
         maxdepth = r.weighted([(0, 8), (1, 16), (2, 22), (3, 20), (4, 14), (5, 10), (6, 10)])
         gname = r.weighted([("g", 70), ("turtle", 15), ("com.example.cmds", 15)])
+        anyweights = r.chance(0.2)
+        if anyweights:
+            self.bump("widened", "weights in front of later items")
         rules = []
         if kind == "hidden" and nrules >= 2:
             # non-tail recursion hidden behind a chain of tail references (D7 class), decorated
@@ -214,7 +230,7 @@ class Gen:
             for i, nm in enumerate(names):
                 later = names[i + 1:]
                 ctx = dict(words=words, pnull=r.choice([0, 4, 10]), pvoid=r.choice([0, 0, 3, 8]), pref=25,
-                           pstop=0.45 if maxdepth < 4 else 0.15, narrow=maxdepth >= 4)
+                           pstop=0.45 if maxdepth < 4 else 0.15, narrow=maxdepth >= 4, anyweights=anyweights)
                 if kind == "acyclic":
                     ctx.update(refs=later, refs_tail=later)
                 elif kind == "tail":
@@ -232,7 +248,19 @@ class Gen:
             p = (pubs == "first" and i == 0) or (pubs == "last" and i == len(rules) - 1) or \
                 (pubs == "several" and (i == 0 or r.chance(0.5)))
             out.append((nm, p, body))
-        return {"name": gname, "rules": out}, kind
+        if r.chance(0.12):
+            # a rule name defined twice: the table keeps the first definition
+            self.bump("widened", "rule name defined twice")
+            nm = r.choice(names)
+            ctx = dict(words=words, refs=[], refs_tail=[], pref=0, pnull=3, pvoid=2)
+            out.insert(r.below(len(out) + 1), (nm, r.chance(0.5), self.alts(ctx, 1, True)))
+        g = {"name": gname, "rules": out}
+        if r.chance(0.15):
+            # imports resolve against nothing (no grammar file can be found): they have no effect
+            self.bump("widened", "import statements")
+            g["imports"] = [r.choice(["<lib.cmd>", "<a.b.c>", "<x.*>", "<" + gname + ".a>", "<solo>"])
+                            for _ in range(r.range(1, 2))]
+        return g, kind
 
 
 # ----------------------------------------------------------------------------
@@ -329,6 +357,8 @@ class Printer:
             head += self.sp(must=True)
             head += "grammar" + self.sp(must=True) + gname + self.sp() + ";" + self.sp(must=True)
         out = head
+        for imp in g.get("imports", []):
+            out += "import" + self.sp(must=True) + imp + self.sp() + ";" + self.sp(must=True)
         for nm, pub, body in g["rules"]:
             out += S_RULE + ("public" + self.sp(must=True) if pub else "") + f"<{nm}>" + self.sp() + "=" + self.sp() + \
                 self.alts(body, gname) + self.sp() + ";" + self.sp(must=True)
@@ -401,7 +431,9 @@ def safe(o):
 
 class Ids:
     def __init__(self, g):
-        self.rule = {nm: i for i, (nm, _, _) in enumerate(g["rules"])}
+        self.rule = {}
+        for nm, _, _ in g["rules"]:
+            self.rule.setdefault(nm, len(self.rule))
         self.word = {}
         for _, _, body in g["rules"]:
             walk_exps(body, self.see)
@@ -587,8 +619,12 @@ def m_table(line):
     return out
 
 
-def tables_equal(ct, mt, tol=2e-6):
+def tables_equal(ct, mt, tol=2e-6, skip_unreachable=False):
     a, b = canon_table(ct), canon_table(mt)
+    if skip_unreachable:
+        # internal rules of a dropped (repeated) definition are never expanded, hence never normalised
+        a = [x for x in a if not x[0].startswith("X")]
+        b = [x for x in b if not x[0].startswith("X")]
     if len(a) != len(b):
         return False, f"{len(a)} rules in the implementation, {len(b)} in the model"
     for (n1, p1, al1), (n2, p2, al2) in zip(a, b):
@@ -636,7 +672,8 @@ def run_batch(binp, cases):
     pos = 0
     hcases = []
     while pos < len(cases):
-        rc, out, err = vlib.run_bin(binp, stdin_text="\n".join(lines[pos:]) + "\n", timeout=600)
+        rc, out, err = vlib.run_bin(binp, stdin_text="\n".join(lines[pos:]) + "\n", timeout=600,
+                                    env_extra={"JSGF_PATH": "/nonexistent-verif-c05"})
         got = parse_harness(out)
         for hc in got:
             hc["rc"], hc["err"] = 0, ""
@@ -813,8 +850,8 @@ def judge_case(res):
         probs.append(("the library crashed / exited / was stopped by a sanitizer", True,
                       {"exit_code": hc["rc"], "stderr_tail": sanitizer_summary(hc["err"])}))
     tl = m.get("table_line", "")
-    if not tl.startswith("table 1 1 "):
-        probs.append(("model: tableMatches(desugar g, g) or namesDistinct is false", False, tl[:60]))
+    if not tl.startswith("table 1 "):
+        probs.append(("model: tableMatches(desugar g, g) is false", False, tl[:60]))
     if hc["parse"] is False:
         probs.append(("the real front end rejects a valid JSGF text", True, ""))
         return probs
@@ -895,7 +932,7 @@ def judge_case(res):
     if built_ok and "built" in hc["rules"]:
         try:
             ct = c_table(hc["rules"]["built"], hc["gname"] or g["name"], ids)
-            ok, why = tables_equal(ct, m_table(m.get("norm_line", "")), tol=1e-4)
+            ok, why = tables_equal(ct, m_table(m.get("norm_line", "")), tol=1e-4, skip_unreachable=True)
         except Exception as e:
             ok, why = False, repr(e)
         if not ok:
@@ -911,7 +948,7 @@ def judge_case(res):
                     probs.append((f"choice point state {st} of the raw FSG of {top}: probabilities sum to {total:.5f}",
                                   None, {"logprobs": lps}))
     # (f) whole pipeline
-    pubs = [nm for nm, p, _ in g["rules"] if p]
+    pubs = [nm for nm, p, _ in first_defs(g) if p]
     rd = hc["read"]
     if rd == "crash":
         pass
@@ -1026,6 +1063,7 @@ def problem_class(p):
     t = p[0]
     table = [("crashed", "crash-in-library"),
              ("front end rejects", "frontend-rejects-valid-text"),
+             ("comments are not ignored", "comment-not-ignored"),
              ("text front end: the real scanner/parser", "front-end-accept-reject-differs"),
              ("text front end: grammar name", "front-end-grammar-name-differs"),
              ("text front end: rule table", "front-end-rule-table-differs"),
@@ -1463,6 +1501,8 @@ def text_stream(c, gen, stats, ntexts, failed, fail_count, machinery):
             st["texts"] += 1
             probs = judge_text(res)
             hc = res["h"] or {}
+            if lab.startswith("text written by the Lean") and hc.get("parse") is False:
+                probs.append(("the real front end rejects a valid JSGF text (written by the Lean pretty-printer)", True, ""))
             if hc.get("parse") is True and res["m_parse"].startswith("tparse "):
                 st["accepted_by_both"] += 1
             elif hc.get("parse") is False and not res["m_parse"].startswith("tparse "):
@@ -1472,7 +1512,8 @@ def text_stream(c, gen, stats, ntexts, failed, fail_count, machinery):
             st["comparisons"] += sum(1 for v in res["cmp"].values() if v == "equal")
             stats["mirror_compared"] = stats.get("mirror_compared", 0) + res.get("mirror_compared", 0)
             if probs:
-                cls = "text: " + problem_class(main_problem(probs))
+                key = text_finding_key(res)
+                cls = "text: " + problem_class(main_problem(probs)) + (" [" + key + "]" if key else "")
                 fail_count[cls] = fail_count.get(cls, 0) + 1
                 if cls not in failed:
                     failed[cls] = (res, probs, None, lab)
@@ -1481,9 +1522,26 @@ def text_stream(c, gen, stats, ntexts, failed, fail_count, machinery):
     for t in HAND_TEXTS:
         batch.append(t.encode("utf-8") if isinstance(t, str) else t)
         labels.append("hand-written text")
+    printed_q = []
     for i in range(ntexts):
         g = gen.grammar()
         marked = Printer(rng, plain=rng.chance(0.2), stats=None).marked(g)
+        if i % 6 == 0:
+            printed_q.append(g)
+            if len(printed_q) >= 40 or i >= ntexts - 6:
+                # texts written by the Lean pretty-printer (the object of C05_parse_print)
+                rc, dout, derr = run_driver_retry("\n".join("print " + " ".join(driver_tokens(x, Ids(x))) for x in printed_q) + "\n")
+                for line in dout.rstrip("\n").split("\n"):
+                    w = line.split(" ")
+                    if len(w) == 4 and w[0] == "printed":
+                        st["lean_printed"] = st.get("lean_printed", 0) + 1
+                        if w[1] != "1" or w[2] != "1":
+                            machinery.append("Lean printer: side conditions or dynamic round trip failed: " + line[:200])
+                        batch.append(bytes.fromhex(w[3]))
+                        labels.append("text written by the Lean pretty-printer")
+                    else:
+                        machinery.append("Lean printer gave no text: " + line[:100])
+                printed_q = []
         if rng.chance(0.25):
             batch.append(strip_marks(marked).encode("utf-8"))
             labels.append("valid text")
@@ -1498,6 +1556,8 @@ def text_stream(c, gen, stats, ntexts, failed, fail_count, machinery):
 
 
 HAND_TEXTS = [
+    "#JSGF V1.0; grammar g; public <a> = x; // public <b> = y;", "#JSGF V1.0; grammar g; public <a> = x; // the public rule",
+    "#JSGF V1.0; grammar g; public <a> = x // y\n | z //\n ; //", "#JSGF V1.0; grammar g; public <a> = x //", "#JSGF V1.0; grammar g; public <a> = // /2/ \n /3/ x ;",
     "", "#JSGF V1.0;", "#JSGF V1.0; grammar g;", "#JSGF V1.0; grammar g; import <a.b>;", "#JSGF V1.0; grammar g; import <a.b>; <a> = x;",
     "#JSGF V1.0; grammar g; <a> = x; import <a.b>;", "#JSGF V1.0 a b c; grammar g; <a> = x;", "#JSGF V1.0 a b c d; grammar g; <a> = x;",
     "#JSGF; grammar g; public <a> = x", "#JSGF; grammar g; public <a> = ;", "#JSGF; grammar g; public <a> = x | ;",
@@ -1575,6 +1635,48 @@ def report(c, res, probs, label, marked=None, do_shrink=True):
     return False
 
 
+def comment_oracle(text):
+    """implementation against itself: a final `// …` comment without newline must change nothing.  Returns a
+    description when removing that comment changes what the real front end builds, else None.  Only used for
+    texts where the `//` certainly starts a comment (no quote or tag before it, not inside `<…>`)."""
+    if b"\n" in text[text.rfind(b"//"):] or b"//" not in text:
+        return None
+    i = text.rfind(b"//")
+    pre = text[:i]
+    if b'"' in pre or b"{" in pre or b"/" in pre.replace(b"*/", b"").replace(b"/*", b""):
+        return None
+    if pre.rfind(b"<") > pre.rfind(b">"):
+        return None
+    if not (pre == b"" or pre[-1:] in b" \t\n;"):
+        return None
+    a, b = run_text_batch([text, pre + b"\n"])
+    ha, hb = a["h"], b["h"]
+    if ha is None or hb is None:
+        return None
+    ta = (ha["parse"], sorted((n, p, str(al)) for n, p, al in ha["rules"].get("parsed", [])))
+    tb = (hb["parse"], sorted((n, p, str(al)) for n, p, al in hb["rules"].get("parsed", [])))
+    if ta != tb:
+        return ("removing the final `//` comment changes what the real front end builds: with the comment "
+                f"parse={ha['parse']} rules={[x[0] for x in ta[1]]}, without it parse={hb['parse']} rules={[x[0] for x in tb[1]]}")
+    return None
+
+
+TEXT_KEY_EOF_COMMENT = "line comment at end of input without newline"
+
+
+def text_finding_key(res):
+    """the failure needs a `//` on a last line without newline, and disappears when the newline is added"""
+    t = res["text"]
+    last = t[t.rfind(b"\n") + 1:]
+    if b"//" not in last:
+        return None
+    try:
+        r2 = run_text_batch([t + b"\n"])[0]
+        return TEXT_KEY_EOF_COMMENT if not judge_text(r2) else None
+    except Exception:
+        return None
+
+
 def report_text(c, res, probs, label):
     """violation report for a text case, shrunk byte-wise"""
     cls = problem_class(main_problem(probs))
@@ -1594,13 +1696,24 @@ def report_text(c, res, probs, label):
             res, probs = r2, p2
     except DriverFailure:
         pass
+    try:
+        why = comment_oracle(res["text"])
+    except DriverFailure:
+        why = None
+    if why:
+        probs = probs + [("comments are not ignored: " + why, True, "")]
     main = ([p for p in probs if problem_class(p) == cls] or [main_problem(probs)])[0]
     impl = any(p[1] is True for p in probs)
     text = res["text"]
     hc = res["h"] or {}
+    key = text_finding_key(res)
+    if key and any(kf.get("property") == c.prop and kf.get("status", "open") == "open" and kf.get("key") == key
+                   for kf in vlib.known_findings()):
+        c.violation({}, impl, finding_key=key)
+        return True
     c.oblige(f"correspondence model = implementation ({label}; {cls})", False,
              {"problems": [p[0] for p in probs][:6], "text": text.decode("utf-8", errors="backslashreplace")})
-    c.violation({"kind": "JSGF text", "failure_class": "text: " + cls, "what": main[0], "text_hex": text.hex(),
+    c.violation({"kind": "JSGF text", "finding_key": key, "failure_class": "text: " + cls, "what": main[0], "text_hex": text.hex(),
                  "jsgf_text": text.decode("utf-8", errors="backslashreplace"),
                  "problems": [{"class": problem_class(p), "what": p[0], "implementation_violates_property": p[1],
                                "detail": p[2]} for p in probs],
@@ -1608,7 +1721,8 @@ def report_text(c, res, probs, label):
                                     "built": [(t, k, "FSG" if isinstance(f, dict) else f) for t, k, f in hc.get("fsg", [])]},
                  "model": {"parse": res["m_parse"][:300], "builds": res["rep"]},
                  "implementation_violates_property": impl,
-                 "how_to_rerun": "python3 tools/check.py C05 --replay <this file>"}, impl, tag="text-" + cls)
+                 "how_to_rerun": "python3 tools/check.py C05 --replay <this file>"}, impl, tag="text-" + cls,
+                finding_key=key)
     return False
 
 
@@ -1680,7 +1794,7 @@ def new_stats():
 def recursion_class(g):
     """untrusted classification of the reference graph of the surface grammar, for the measured distribution only:
     every cycle is classified by the positions of its references (all last = tail)"""
-    rules = {nm: body for nm, _, body in g["rules"]}
+    rules = {nm: body for nm, _, body in first_defs(g)}
     edges = {nm: set() for nm in rules}     # (target, is_last, is_first)
 
     def alts(a, src, last_ctx, first_ctx):
@@ -1736,18 +1850,25 @@ def small_scope(atoms, max_alts_a):
 
 def check(c):
     c.trusted += ["harness/h_c05.c + tools/props/c05.py (generator, JSGF printer, canonicalisation of rule tables, diff)",
-                  "the generated scanner/parser are not modelled line by line: they are tied through the rule-table diff",
+                  "jsgf_scanner.c / jsgf_parser.c are generated code: the Lean lexer (start conditions, longest match, patterns) and the pushdown "
+                  "parser mirror the .l/.y sources and are tied by running both on generated, Lean-printed, hand-written and mutated texts "
+                  "(accept/reject, grammar name, rule table, then the whole pipeline)",
                   "word identity: the FSG word of a token is the token text as written (quoted tokens keep their quotes)",
                   "fsg_model_arcs / fsg_arciter_* as the observer of the FSG; logmath only for the probability sums",
                   "clang ASan/UBSan as observer of memory errors during parsing/expansion"]
-    c.assumptions += ["weights are written on the first item of an alternative (JSGF places weights on alternatives); "
-                      "a weight > 1 on a later rule reference makes fsg_model_null_trans_add call E_FATAL and is outside the quantifier",
-                      "rule names are distinct within a grammar and do not have the form gNNNNN; imports are not generated",
+    c.assumptions += ["weights may stand in front of any item (as jsgf_parser.y takes them); a rule reference / <NULL> that is not first in "
+                      "its alternative and has a weight above 1 is refused by jsgf_build_fsg (D36) and by the model (`buildRaw`); weights in "
+                      "(1, 1.0002) (log-quantisation decides) and weights of 39 digits and more (infinite in single precision) are outside the quantifier",
+                      "a rule name defined twice keeps its first definition (hash_table_enter), in the model as in the code; rule names of the "
+                      "form gNNNNN (collision with internal names) are outside the quantifier",
+                      "import statements are resolved against nothing: the harness sets JSGF_PATH to a directory that does not exist, so an "
+                      "import has no effect (a reference to the imported rule is then an undefined rule); importing from grammar files is outside the quantifier",
                       "a zero-weight alternative is compared structurally (the arc exists with log-zero probability)",
                       "the compiler may refuse any rule whose reference graph has a cycle through a non-final reference "
                       "(even when <VOID>/<NULL> make the language regular); `representable` is that syntactic test",
                       "closed FSGs with more than %d arcs are not compared (null closure is quadratic); the raw FSG always is"
-                      % MAX_CLOSED_ARCS]
+                      % MAX_CLOSED_ARCS,
+                      "text front end: byte strings without NUL (the API takes a C string); the Lean lexer/parser model is the repaired scanner (D46, D64)"]
     if not c.lean_obligations():
         return
     vlib.build_harness("h_c05")
@@ -1832,7 +1953,8 @@ def check(c):
     for grp in order[:6]:
         res, probs, marked, label = failed[grp]
         if grp.startswith("text: "):
-            report_text(c, res, probs, label)
+            if report_text(c, res, probs, label):
+                known.add(grp)
         elif report(c, res, probs, label, marked):
             known.add(grp)
     unexplained = {k: v for k, v in fail_count.items() if k not in known}
@@ -1855,6 +1977,7 @@ def check(c):
                   "probability_sum_check_per_grammar": stats["probability_sum_check"],
                   "raw_fsgs_equal_to_mirror_of_expand_rule": stats.get("mirror_compared", 0),
                   "regenerated_by_generator": stats.get("regenerated", {}),
+                  "widened_quantifier_cases": stats.get("widened", {}),
                   "max_explored_forms": stats["max_forms"], "explored_forms_total": stats["forms_total"],
                   "max_fsg_states": stats["max_fsg_states"], "max_fsg_arcs": stats["max_fsg_arcs"],
                   "text_front_end_stream": stats.get("text_stream", {}), "text_mutation_kinds": stats.get("mutation_kind", {}),
@@ -1873,7 +1996,10 @@ def fix_grammar(g):
 
     def alts(a):
         return [[(it[0], list(it[1]), exp(it[2])) for it in s] for s in a]
-    return {"name": g["name"], "rules": [(r[0], bool(r[1]), alts(r[2])) for r in g["rules"]]}
+    out = {"name": g["name"], "rules": [(r[0], bool(r[1]), alts(r[2])) for r in g["rules"]]}
+    if g.get("imports"):
+        out["imports"] = list(g["imports"])
+    return out
 
 
 def replay(c, path):
